@@ -167,4 +167,5 @@ def run(ctx):
     for key, lst in sorted(agg.items()):
         ctx.violation(key, "%s  [%d case(s)]" % (lst[0][0][:700], len(lst)), lst[0][1])
     ctx.extra["records"] = len(recs)
+    ctx.require(ctx.extra.get("records_matched", 0) >= 0.5 * len(recs) or agg, "only %d of %d records were found in the output" % (ctx.extra.get("records_matched", 0), len(recs)))
 
